@@ -13,16 +13,22 @@ TRUST = ("Trusted: Coq 8.16.1 kernel (full .vo build), extraction with ExtrOcaml
 
 CHECKS = {
     "C15": dict(
-        text="Proof (partial, with refutations) over an L2 object state machine (25 fields with kind/shape/provenance, "
+        text="Proof (with refutations) over an L2 object state machine (25 fields with kind/shape/provenance, "
              "one step per public method, partial effects of failed calls kept): every field a call reads is serialised "
-             "except _source (refuted: direct-sound collect after restore, known finding); for every well-kinded state "
-             "restore(save s) is Ok with s' ~ s and eq true exactly when check() accepts s, and raises that error "
-             "otherwise (two reachable refused classes are witnessed: partial materials, stale cache -- known findings); "
-             "~ is a bisimulation for the setters and round trips (by induction over op lists). The correspondence runs "
+             "except _source (refuted: direct-sound collect after restore, known finding); the kind invariant holds for a "
+             "fresh object and is preserved by every call, so in EVERY reachable state restore(save s) is Ok with s' ~ s "
+             "and eq true exactly when check() accepts s, and raises that error otherwise (two reachable refused classes "
+             "are witnessed: partial materials, stale cache -- known findings); ~ is a bisimulation for EVERY call except "
+             "the direct-sound collect (setters, bake, init_source incl. default installs and partial effects, exchange "
+             "with/without recalculate, collect(direct_sound=False), both round trips); headline "
+             "C15_lossless_continuation: after a round trip at any reachable accepted stage every continuation without "
+             "direct-sound collects answers with the same classes and observations on original and restored object and "
+             "passes through similar states (induction over op lists). The correspondence runs "
              "random op sequences on the real object and compares presence/kind/shape/exception class and provenance-equal "
              "=> bit-identical arrays; twin tests finish the pipeline on original and restored object.",
-        note=TRUST + "NOT carried: bisimulation for bake/init_source/exchange/collect (twin test + correspondence "
-             "only), preservation of the kind invariant, the Kang round trip (implementation test only).",
+        note=TRUST + "NOT carried: the theorems are about the L2 model (ownership and _source are not compared by ~); "
+             "per-call tightness of the declared read sets; bit-identity of array contents through the IO layer "
+             "(harness); the Kang round trip (implementation test only).",
         technique="Coq proof over an abstract object state machine + op-sequence correspondence", ref="5/C15"),
     "C16": dict(
         text="Proof (partial, with refutations) over the same L2 model: the provenance of baked factors / initial energy "
